@@ -338,6 +338,21 @@ def ne_revisit_tie(m_a, m_b, ren=None, tol=1e-9):
             seen_bad, chain_bad = _ne_chain_nodes(jb)
             seen_good, chain_good = _ne_chain_nodes(j)
             seen_good = {mp(x) for x in seen_good}
+            # both alternative predecessors of J must have been available - live, expanded (not postponed by pruning) and
+            # equally probable - in BOTH runs: then the only difference is which of the two update() kept.  (If pruning or
+            # anything else removed one of them in one run, that is a different cause and not this finding.)
+            inv_r = {v: k for k, v in r.items()}
+
+            def available(matcher, entry_of_other, to_matcher_labels):
+                k_o = tuple(entry_of_other.key)
+                k_m = tuple(to_matcher_labels(x) for x in k_o[:-2]) + k_o[-2:]
+                c_m = matcher.lattice[entry_of_other.obs]
+                x = c_m.o[entry_of_other.obs_ne].get(k_m) if entry_of_other.obs_ne < len(c_m.o) else None
+                return (x is not None and not x.stop and x.delayed <= matcher.expand_now and
+                        base.close(float(x.logprob), float(entry_of_other.logprob), tol))
+            pg, pb = list(j.prev), list(jb.prev)
+            if not pg or not pb or not available(bad, pg[0], mp) or not available(good, pb[0], lambda x: inv_r.get(x, x)):
+                break
             if target in seen_bad and target not in seen_good:
                 return (f"{tuple(j.key)} -> {key}: the other run holds {jkey_b} with the same probability via the chain "
                         f"{chain_bad} (instead of {chain_good}), which contains node {target!r}: move forbidden by the no-revisit filter")
